@@ -193,14 +193,14 @@ def tlc_env():
 STATS_RE = re.compile(r'(\d+) states generated, (\d+) distinct states found')
 
 
-def tlc_trace(module, trace_path, workdir):
+def tlc_trace(module, trace_path, workdir, cfg=None):
     """Validate one trace file. Returns dict(diags, done, summary, states, distinct, raw_tail)."""
     meta = os.path.join(workdir, 'meta_' + os.path.basename(trace_path))
     shutil.rmtree(meta, ignore_errors=True)
     env = tlc_env()
     env['TRACE'] = trace_path
     cmd = ['java', '-cp', TLAJAR, '-DTLA-Library=' + os.path.join(VERIF, 'spec'), 'tlc2.TLC', '-workers', '1',
-           '-metadir', meta, '-config', module + '.cfg', module + '.tla']
+           '-metadir', meta, '-config', cfg or (module + '.cfg'), module + '.tla']
     try:
         rc, o = sh(cmd, timeout=3000, env=env, cwd=os.path.join(VERIF, 'trace'))
     except subprocess.TimeoutExpired:
@@ -402,6 +402,9 @@ def props_of(d):
         return {'C02'}
     under_limit = d.get('limit_active', False)
     fields = set(d.get('diff', {}).keys()) if isinstance(d.get('diff'), dict) else set()
+    if under_limit and kind in ('valid', 'fields', 'nonatomic', 'limitret'):
+        # with a length limit active the governing relation is C09's (DESIGN.md 5/C09)
+        return {'C09'}
     if kind in ('valid', 'fields'):
         core = kind == 'valid' or (fields & (GETTER_FIELDS | {'flags', 'scheme_type'}))
         if e == 'parse' and core:
@@ -475,6 +478,10 @@ def match_known(d, prop, known):
             continue
         m = k['match']
         if 'kind' in m and d.get('kind') != m['kind']:
+            continue
+        if 'kinds' in m and d.get('kind') not in m['kinds']:
+            continue
+        if m.get('limit_active') and not d.get('limit_active'):
             continue
         if 'who' in m and d.get('who') not in m['who']:
             continue
